@@ -95,3 +95,47 @@ impl RawTableInner {
         unimplemented!()
     }
 }
+
+// core::hint::unreachable_unchecked: reaching it is undefined behaviour, so its precondition is `false`
+pub mod hint {
+    use super::*;
+    #[verifier::external_body]
+    pub fn unreachable_unchecked() -> !
+        requires false,
+    {
+        unimplemented!()
+    }
+}
+
+pub struct RawTable<T> {
+    pub table: RawTableInner,
+    pub marker: Ghost<Option<T>>,
+}
+
+impl RawTableInner {
+    // contract of fallible_with_capacity (allocation path; evaluated natively by r_try_reserve /
+    // r_no_alloc): fails only in fallible mode
+    #[verifier::external_body]
+    pub fn fallible_with_capacity<A: Allocator>(alloc: &A, table_layout: TableLayout, capacity: usize, fallibility: Fallibility) -> (r: Result<RawTableInner, TryReserveError>)
+        ensures
+            r is Err ==> fallibility is Fallible,
+            r matches Ok(t) ==> t.counts_ok() && t.items == 0 && spec_cap_of(t.bucket_mask) >= capacity && t.growth_left as int == spec_cap_of(t.bucket_mask),
+    {
+        unimplemented!()
+    }
+}
+
+impl<T> RawTable<T> {
+    // contract of reserve_rehash = reserve_rehash_inner's, proved above on the extracted text
+    #[verifier::external_body]
+    pub fn reserve_rehash<H>(&mut self, additional: usize, hasher: H, fallibility: Fallibility) -> (r: Result<(), TryReserveError>)
+        requires old(self).table.counts_ok(),
+        ensures
+            r is Ok ==> final(self).table.counts_ok() && final(self).table.items == old(self).table.items && final(self).table.growth_left >= additional,
+            r is Err ==> fallibility is Fallible && final(self).table.bucket_mask == old(self).table.bucket_mask
+                && final(self).table.items == old(self).table.items && final(self).table.growth_left == old(self).table.growth_left
+                && final(self).table.alloc_id@ == old(self).table.alloc_id@,
+    {
+        unimplemented!()
+    }
+}
